@@ -18,13 +18,16 @@ SPEC = dict(
                 "value of every key after any history in any order is bottom if the key was tombstoned anywhere and otherwise "
                 "the join of all replica values (merge_history_value, live_key_iff: bottom values are invisible), generically "
                 "in the nested value lattice (any ValOps refining a SemilatticeSup with bottom; instantiated for set-union "
-                "values, setOps_spec). The model transcribes both `impl Merge` bodies statement by statement and is tied to "
+                "values, setOps_spec). tombstone_union_with_spec / tombstone_collect_spec: the bare TombstoneSet surface (union_with, extend, "
+                "collect) is set union and union_with answers the old length. "
+                "The model transcribes both `impl Merge` bodies statement by statement and is tied to "
                 "the code by running the same histories (bounded-exhaustive small scopes with every re-merge order + seeded "
                 "random, other-representations Vec/HashSet/BTreeSet/Option/Singleton/tombstone-only/same) on the real "
                 "HashSet, BTreeSet+HashSet, RoaringTombstoneSet and FstTombstoneSet backends and diffing every answer "
                 "(flag, live, tombstones) against the compiled model; the property itself (formula, never-resurrect, "
                 "disjointness, order independence, backend agreement, changed flag) is evaluated on the real code against "
-                "an independent bookkeeping of inserted/tombstoned items."),
+                "an independent bookkeeping of inserted/tombstoned items; `tb union` lines run TombstoneSet::union_with/extend/contains/len and "
+                "FromIterator/IntoIterator of the HashSet, roaring and FST backends on the same inputs against a BTreeSet oracle."),
     level_note=("Trusted: Lean kernel + propext/Classical.choice/Quot.sound; HashSet/BTreeSet/RoaringTreemap/fst::Set are "
                 "modelled as duplicate-free lists (their internals are exercised by the correspondence, not proved); "
                 "backend interchangeability is established by correspondence (all backends must print the model's answer), "
